@@ -12,6 +12,9 @@ import (
 
 func c03Run(c hCase) Verdict {
 	run := runLockstep(c)
+	if run.deadlock != "" {
+		return failf("deadlock", "%s\nhistory: %v", trimTo(run.deadlock, 2500), cmdNames(c.Cmds))
+	}
 	if run.incon != "" {
 		return Verdict{Inconclusive: run.incon}
 	}
